@@ -8,5 +8,5 @@ CONSTANTS
   MaxCrash = 2
   MaxFlush = 3
 SPECIFICATION MCSpec
-INVARIANTS AckNotAhead NoLoss NoReapply FlushedResolves NoIdReuse SeriesIndexed
+INVARIANTS AckNotAhead NoLoss NoReapply FlushedResolves NoIdReuse IndexedResolves AckedDataIndexed SeriesIndexed
 CHECK_DEADLOCK FALSE
